@@ -281,6 +281,7 @@ def configs(tier):
         fan += [dict(windows=[4, 1], delays=[0.15, 0.004]), dict(windows=[1, 1], delays=[0.004, 0.21], third=[3, 5])]
     for f_ in fan:
         inst2.append(dict(dict(kind="fanout", mode="mcs", ts_max=0.5), **f_))
+    inst2 += cg.random_instances(tier)
     if tier == "thorough":
         for tri in list(_it.permutations(sets, 3))[:8]:
             inst2.append(dict(kind="hetero", settings=[list(x) for x in tri], mode="generational", ts_max=0.6))
